@@ -220,7 +220,13 @@ structure Defects where
   newGroupUserAdminUnchecked : Bool
 deriving Repr, DecidableEq
 
+/-- /repo as it is now. Fixed since the first run of this check (regression witnesses are kept about
+    `Defects.beforeFixes`): `roomRowUnchecked`, `newGroupUserAdminUnchecked` (/repo 77018f3). -/
 def Defects.asImplemented : Defects :=
+  { placingEdgeUnchecked := true, roomRowUnchecked := false, newGroupUserAdminUnchecked := false }
+
+/-- /repo before any of the fixes that this check led to -/
+def Defects.beforeFixes : Defects :=
   { placingEdgeUnchecked := true, roomRowUnchecked := true, newGroupUserAdminUnchecked := true }
 def Defects.none : Defects :=
   { placingEdgeUnchecked := false, roomRowUnchecked := false, newGroupUserAdminUnchecked := false }
